@@ -93,7 +93,9 @@ def names_for(spec, sfx):
 
 
 def res_name(key, rid, sfx):
-    return "R%s_%s%s" % (key, rid, sfx)
+    # the resonance id comes last so that ids like "1" and "11" give names
+    # where one is a prefix of the other (as in D1_2430 / D1_2430p)
+    return "R%s%s_%s" % (key, sfx, rid)
 
 
 def build(spec, sfx=None):
